@@ -1,8 +1,9 @@
 import Driver.Loop
 import OPM.Model.Wire
 import OPM.Model.Tags
+import OPM.Gen.TagSites
 namespace Driver.Tags
-open OPM OPM.Wire OPM.Tags
+open OPM OPM.Wire OPM.Tags OPM.Gen.TagSites
 
 /-!
 ops (tab separated; values: `n` = None, otherwise an integer; times: integers, 1/1024 s)
@@ -12,8 +13,16 @@ ops (tab separated; values: `n` = None, otherwise an integer; times: integers, 1
   simfail|simoff|simoffold|simfailold <i>                                               → ok
   stamp <i> <time> ; silent <i> <val> ; notify                                          → ok
   etick <time> <i>:<val>,…|-             Engine.tick of a stopped engine                → ok
-  collect <snapshot 0|1> <now>           collect_tag_updates → entries sorted by position,
-                                         `i:val:time:sim;…` or `-`
+  collect <snapshot 0|1> <now>           collect_tag_updates → the entries that tell the receiver something new
+                                         (value or simulated differ from what was last reported for the tag),
+                                         sorted by position: `i:val:time:sim;…` or `-`; a snapshot is
+                                         prefixed with `S<number of entries>|`
+  tick <t> <wall>                        start of Engine.tick(t): parameter bound, statements of the tick pending → ok
+  phase <callee>|stamp                   run the translated statements of Engine.tick up to that call (entering
+                                         self.interpreter.tick also runs tick_iterate_subticks' assignment) → ok
+  sat <file> <line> set|sim <i> <val>    a primitive call at a scanned call site: the time argument is NOT given,
+                                         the model evaluates the site's translated expression → `t=<time>`
+  stat <file> <line> <i>                 a direct `tag.tick_time = …` at a scanned site → `t=<time>`
   bt|btold <idx> start <now> | bstart | bend | tick <t> <dt> | pause | unpause
   st|stold <idx> start <now> | sstart <now> | act <id> | end <id> | tick <t> <dt> | pause | unpause
                                          clock tag handlers → `ok <get_value>` or `err:<Exception> <get_value>`
@@ -24,8 +33,30 @@ structure St where
   s : State
   bt : BlockTime
   st : ScopeTime
+  /-- environment of the running tick and the statements of `Engine.tick` still to run -/
+  env : Env
+  rest : List Stmt
+  /-- what the receiver of the reports knows per tag -/
+  view : List (Nat × Val × Time × Bool)
 
-def init : St := ⟨State.empty, BlockTime.init, ScopeTime.init⟩
+def init : St := ⟨State.empty, BlockTime.init, ScopeTime.init, Env.init, [], []⟩
+
+/-- entries that differ from the receiver's view, and the updated view -/
+def news (view : List (Nat × Val × Time × Bool)) : List Entry → List (Nat × Val × Time × Bool) × List Entry
+  | [] => (view, [])
+  | e :: es =>
+    let cur := (e.idx, e.value, e.tickTime, e.simulated)
+    -- news = the value or the simulated flag differs from what the receiver knows (a new time alone is not a change)
+    if view.any (fun v => v.1 = e.idx && v.2.1 = e.value && v.2.2.2 = e.simulated) then news view es
+    else
+      let r := news (cur :: view.filter (fun v => v.1 ≠ e.idx)) es
+      (r.1, e :: r.2)
+
+def findSite (file : String) (line : Nat) : Option SetSite :=
+  setSites.find? (fun s => s.file = file && s.line ≤ line && line ≤ s.endLine)
+
+def findStamp (file : String) (line : Nat) : Option StampSite :=
+  stampSites.find? (fun s => s.file = file && s.line = line)
 
 def parseVal (x : String) : Option Val :=
   if x = "n" then some none else x.toInt?.map some
@@ -99,11 +130,17 @@ def step (σ : St) (line : String) : St × String :=
   match fields line with
   | ["decls", ds] =>
     match parseDecls ds with
-    | some ds => ({ σ with s := ds.foldl (fun s d => s.addTag d.1 d.2.1 d.2.2) σ.s }, "ok")
+    | some ds =>
+      -- the receiver knows the state the run starts from (as after an initial snapshot)
+      let s' := ds.foldl (fun s d => s.addTag d.1 d.2.1 d.2.2) σ.s
+      let n0 := σ.s.tags.length
+      let v' := (List.range ds.length).zip ds |>.map (fun p => (n0 + p.1, p.2.2.1, p.2.2.2, false))
+      ({ σ with s := s', view := v' ++ σ.view }, "ok")
     | none => (σ, "bad-op")
   | ["decl", sys, v, t] =>
     match parseBool sys, parseVal v, t.toInt? with
-    | some sys, some v, some t => ({ σ with s := σ.s.addTag sys v t }, "ok")
+    | some sys, some v, some t =>
+      ({ σ with s := σ.s.addTag sys v t, view := (σ.s.tags.length, v, t, false) :: σ.view }, "ok")
     | _, _, _ => (σ, "bad-op")
   | ["set", i, v, t] =>
     match i.toNat?, parseVal v, t.toInt? with
@@ -145,7 +182,52 @@ def step (σ : St) (line : String) : St × String :=
     | some snap, some now =>
       let r := collect σ.s snap now
       let es := sortEntries r.2
-      ({ σ with s := r.1 }, if es.isEmpty then "-" else ";".intercalate (es.map showEntry))
+      let nv := news σ.view es
+      let body := if nv.2.isEmpty then "-" else ";".intercalate (nv.2.map showEntry)
+      ({ σ with s := r.1, view := nv.1 }, if snap then s!"S{es.length}|{body}" else body)
+    | _, _ => (σ, "bad-op")
+  | ["tick", t, w] =>
+    match t.toInt?, w.toInt? with
+    | some t, some w => ({ σ with env := σ.env.enterTick t w, rest := engineTickStmts }, "ok")
+    | _, _ => (σ, "bad-op")
+  | ["phase", "stamp"] =>
+    match advanceStamp σ.rest σ.env with
+    | some (e, _, rest) => ({ σ with env := e, rest := rest }, "ok")
+    | none => (σ, "no-such-phase")
+  | ["phase", name] =>
+    match advance name σ.rest σ.env with
+    | some (e, a, rest) =>
+      let e' := if name = "self.interpreter.tick" then
+          match a with
+          | some x => enterInterp interpTickStmts e (evalArg e 0 0 x)
+          | none => e
+        else e
+      ({ σ with env := e', rest := rest }, "ok")
+    | none => (σ, "no-such-phase")
+  | ["sat", file, line, kind, i, v] =>
+    match line.toNat?, i.toNat?, parseVal v with
+    | some line, some i, some v =>
+      match findSite file line with
+      | none => (σ, "no-such-site")
+      | some site =>
+        let t := evalArg σ.env σ.env.param 0 site.expr
+        if kind = "set" then
+          let r := tagOp σ (.set i v t)
+          (r.1, if r.2 = "ok" then s!"t={t}" else r.2)
+        else if kind = "sim" then
+          let r := tagOp σ (.sim i v t)
+          (r.1, if r.2 = "ok" then s!"t={t}" else r.2)
+        else (σ, "bad-op")
+    | _, _, _ => (σ, "bad-op")
+  | ["stat", file, line, i] =>
+    match line.toNat?, i.toNat? with
+    | some line, some i =>
+      match findStamp file line with
+      | none => (σ, "no-such-site")
+      | some site =>
+        let t := evalArg σ.env σ.env.param 0 site.expr
+        let r := tagOp σ (.stamp i t)
+        (r.1, if r.2 = "ok" then s!"t={t}" else r.2)
     | _, _ => (σ, "bad-op")
   | "bt" :: idx :: args =>
     match idx.toNat?, btEvent args with
